@@ -50,6 +50,9 @@ checks = {
    text='generated operation sequences on 128-256 real timers; one-sided hard bounds that are sound under load, lateness only beyond 2 s relative to a control timer and with a scheduler-stall heartbeat.', note='real time is observed; a stalled machine makes cases inconclusive, never violated; thorough tier may be run with VERIF_RACE=1', ref='4.18'),
  'C19': dict(engine='c19', technique='runtime monitoring: oracles (hash sensitivity, codec fixed point and round trip, recovery rebuild, signature and Merkle sensitivity) over generated payloads/blocks/bytes/keys executed on the real internal packages',
    text='seeded generators and boundary lists drive the real internal/consensus, internal/crypto, internal/merkle code; byte fuzzing in a memory-limited child process.', note='reference wire-format omissions are reported as observations (observationsNotAsserted), see DESIGN 4.19', ref='4.19'),
+
+ 'C20': dict(engine='c20', technique="runtime monitoring of the specifications themselves: TLC simulation mode generates random behaviours from Init/Next of each shipped .tla and evaluates the named invariants on every generated state; coverage probes (negated reachability predicates that must be refuted) show what the behaviours reached",
+   text='the five .tla files are read from the working tree, run with generated cfgs (shipped constants, MaxView 1..2, every fault set the ASSUME permits) under tlc -simulate; held on K behaviours / S states, not exhaustive by design.', note='exploration only: exhaustive BFS, Apalache and TLAPS are deliberately not the deciding step (technique family); TLC itself is trusted', ref='4.20, 5.8'),
 }
 tiers_thorough_env = {'C18': 'VERIF_RACE=1 '}
 out = {"version": 1, "setup_cmd": "bin/setup",
